@@ -170,7 +170,7 @@ theorem derive_requires_mask {c e ot us t cr eff d} (h : opDeriveKey c e ot us t
 
 /-- Destroy is refused for an Active object. -/
 theorem destroy_refused_when_active {c : Ctx} {e : Engine} {u : Option String} {o : Obj}
-    (ho : getWithAccess c e (uidOr u e.placeholder) Op.destroy = .ok o) (hact : o.state = some St.active) :
+    (ho : getWithAccess c e (uidOrObj u e.placeholder) Op.destroy = .ok o) (hact : o.state = some St.active) :
     opDestroy c e u = .error (.kmip Rsn.permissionDenied "Object is active and cannot be destroyed.") := by
   simp [opDestroy, bind, Except.bind, ho, hact, kerr]
 
